@@ -726,6 +726,16 @@ func genTyped(r *vh.Rng, idx int, skip map[string]bool, only string) *tprog {
 					}
 				}
 			}
+			if skip["methods-twice"] && sn.name == "methods" && only == "" {
+				// finding corpus:methods-shared-by-identical-struct-types is open: one `methods` snippet per program
+				dup := false
+				for _, nm := range p.Names {
+					dup = dup || nm == "methods"
+				}
+				if dup {
+					continue
+				}
+			}
 			if !skip[sn.name] || only != "" {
 				break
 			}
